@@ -153,31 +153,24 @@ func issuerFacts(issuerData map[string]any, a *Arte) (string, stateFacts) {
 	didOK := err == nil
 	resolve := "DErr"
 	if a.DIDDoc != nil {
-		b, _ := json.Marshal(a.DIDDoc)
-		var doc verifiable.DIDDocument
-		var derr error
-		func() {
-			defer func() {
-				if r := recover(); r != nil {
-					derr = fmt.Errorf("panic")
-				}
-			}()
-			doc, derr = didStub{body: b}.Resolve(context.Background(), nil)
-		}()
-		if derr == nil {
-			resolve = "(DDoc None)"
-			for _, vm := range doc.VerificationMethod {
-				if vm.Type == "Iden3StateInfo2023" {
-					switch {
-					case vm.Published == nil:
-						resolve = "(DDoc (Some None))"
-					default:
-						resolve = "(DDoc (Some (Some " + b2c(*vm.Published) + ")))"
+		inner, present := a.DIDDoc["didDocument"]
+		info := "None"
+		if im := asMap(inner); im != nil {
+			if vms, ok := im["verificationMethod"].([]any); ok {
+				for _, e := range vms {
+					if vm := asMap(e); vm != nil && str(vm, "type") == "Iden3StateInfo2023" {
+						switch p := vm["published"].(type) {
+						case bool:
+							info = "(Some (Some " + b2c(p) + "))"
+						default:
+							info = "(Some None)"
+						}
+						break
 					}
-					break
 				}
 			}
 		}
+		resolve = fmt.Sprintf("(DDoc %s %s)", didDocJV(inner, present), info)
 	}
 	idOK, genesis := false, "None"
 	if didOK && st.hv != nil {
@@ -215,17 +208,8 @@ func statusAnswerFacts(a *Arte, url string, nonce uint64) string {
 		MTP    any            `json:"mtp"`
 	}
 	if err := json.Unmarshal(b, &probe); err != nil {
-		return "RAErr"
-	}
-	// does the library type decode it at all (kinds)?  (dependency decoder under recover)
-	ok := false
-	func() {
-		defer func() { _ = recover() }()
-		var rs verifiable.RevocationStatus
-		ok = json.Unmarshal(b, &rs) == nil
-	}()
-	if !ok {
-		return "RAErr"
+		// member kinds the probe does not take: the decoder skeleton decides (kinds_ok = false)
+		return fmt.Sprintf("(RAns %s (mkstatef HNil_ HNil_ HNil_ HNil_ false false) (mkmtpf false None LErr))", statusJ(a.Status))
 	}
 	st := stateOf(probe.Issuer, "state")
 	want := st.hrtr
@@ -238,7 +222,7 @@ func statusAnswerFacts(a *Arte, url string, nonce uint64) string {
 	}
 	m := mtpOf(mtp, true, want, new(big.Int).SetUint64(nonce), big.NewInt(0))
 	m = strings.TrimSuffix(strings.TrimPrefix(m, "(Some "), ")")
-	return fmt.Sprintf("(RAns %s %s)", st.coq(), m)
+	return fmt.Sprintf("(RAns %s %s %s)", statusJ(a.Status), st.coq(), m)
 }
 
 func claimFromHex(s string) (*core.Claim, bool) {
